@@ -89,19 +89,21 @@ Proof. induction q1 as [|p r IH]; simpl; [lia|]. rewrite IH. lia. Qed.
 Definition att_ok (maxr : Z) (q : list pending) : Prop :=
   forall p, In p q -> 0 <= p_att p <= maxr.
 
-Lemma drive_q_spec cwnd nr dl : forall q infl q' o,
-  drive_q cwnd nr dl infl q = (q', o) ->
+Definition opt_list {A} (o : option A) : list A := match o with Some x => [x] | None => [] end.
+
+Lemma drive_q_spec cwnd nr dl : forall q infl fj q' o e,
+  drive_q cwnd nr dl infl fj q = (q', o, e) ->
   map key q' = map key q /\
-  emits_ok nr q o /\
+  emits_ok nr q (o ++ opt_list e) /\
   count_inflight q <= count_inflight q' /\
   count_inflight q' - count_inflight q <= Z.max 0 (cwnd - infl) /\
   (forall maxr, 1 <= maxr -> att_ok maxr q -> att_ok maxr q').
 Proof.
-  induction q as [|p r IH]; intros infl q' o H; simpl in H.
+  induction q as [|p r IH]; intros infl fj q' o e H; simpl in H.
   - inversion H; subst. splits; try (simpl; lia); auto using emits_ok_nil.
   - destruct (0 <? p_att p) eqn:Ea.
-    + destruct (drive_q cwnd nr dl infl r) as [r' o'] eqn:E. inversion H; subst.
-      destruct (IH _ _ _ E) as (K & Em & C1 & C2 & At). cbn [count_inflight map]. rewrite Ea.
+    + destruct (drive_q cwnd nr dl infl fj r) as [[r' o'] e'] eqn:E. inversion H; subst.
+      destruct (IH _ _ _ _ _ E) as (K & Em & C1 & C2 & At). cbn [count_inflight map]. rewrite Ea.
       splits.
       * f_equal; exact K.
       * intros pk Hin. destruct (Em pk Hin) as [A B]. split; [exact A|]. intros b Hb. right. auto.
@@ -111,18 +113,35 @@ Proof.
         apply (At maxr Hm); [|exact Hx]. intros y Hy; apply Ha; right; exact Hy.
     + destruct (cwnd <=? infl) eqn:Ec.
       * inversion H; subst. splits; try lia; auto using emits_ok_nil.
-      * destruct (drive_q cwnd nr dl (infl + 1) r) as [r' o'] eqn:E. inversion H; subst.
-        destruct (IH _ _ _ E) as (K & Em & C1 & C2 & At).
-        cbn [count_inflight map p_att]. rewrite Ea. change (0 <? 1) with true. cbv iota.
-        splits.
-        -- f_equal; exact K.
-        -- intros pk [<-|Hin].
-           ++ simpl. split; [reflexivity|]. intros b Hb; inversion Hb; subst. left; reflexivity.
-           ++ destruct (Em pk Hin) as [A B]. split; [exact A|]. intros b Hb. right. auto.
-        -- lia.
-        -- lia.
-        -- intros maxr Hm Ha x [<-|Hx]; [simpl; lia|].
-           apply (At maxr Hm); [|exact Hx]. intros y Hy; apply Ha; right; exact Hy.
+      * assert (Hfail : forall r0, map key (mkP (p_body p) (p_sid p) (p_ns p) 1 dl :: r0) = key p :: map key r0)
+          by reflexivity.
+        destruct fj as [[|k]|].
+        -- (* the write fails *)
+           inversion H; subst. cbn [count_inflight map p_att]. rewrite Ea. change (0 <? 1) with true. cbv iota.
+           splits; try lia.
+           ++ reflexivity.
+           ++ intros pk [<-|[]]. simpl. split; [reflexivity|]. intros b Hb; inversion Hb; subst. left; reflexivity.
+           ++ intros maxr Hm Ha x [<-|Hx]; [simpl; lia|]. apply Ha; right; exact Hx.
+        -- destruct (drive_q cwnd nr dl (infl + 1) (Some k) r) as [[r' o'] e'] eqn:E. inversion H; subst.
+           destruct (IH _ _ _ _ _ E) as (K & Em & C1 & C2 & At).
+           cbn [count_inflight map p_att]. rewrite Ea. change (0 <? 1) with true. cbv iota.
+           splits; try lia.
+           ++ f_equal; exact K.
+           ++ intros pk [<-|Hin].
+              ** simpl. split; [reflexivity|]. intros b Hb; inversion Hb; subst. left; reflexivity.
+              ** destruct (Em pk Hin) as [A B]. split; [exact A|]. intros b Hb. right. auto.
+           ++ intros maxr Hm Ha x [<-|Hx]; [simpl; lia|].
+              apply (At maxr Hm); [|exact Hx]. intros y Hy; apply Ha; right; exact Hy.
+        -- destruct (drive_q cwnd nr dl (infl + 1) None r) as [[r' o'] e'] eqn:E. inversion H; subst.
+           destruct (IH _ _ _ _ _ E) as (K & Em & C1 & C2 & At).
+           cbn [count_inflight map p_att]. rewrite Ea. change (0 <? 1) with true. cbv iota.
+           splits; try lia.
+           ++ f_equal; exact K.
+           ++ intros pk [<-|Hin].
+              ** simpl. split; [reflexivity|]. intros b Hb; inversion Hb; subst. left; reflexivity.
+              ** destruct (Em pk Hin) as [A B]. split; [exact A|]. intros b Hb. right. auto.
+           ++ intros maxr Hm Ha x [<-|Hx]; [simpl; lia|].
+              apply (At maxr Hm); [|exact Hx]. intros y Hy; apply Ha; right; exact Hy.
 Qed.
 
 Lemma ack_q_spec ack ssth pw : forall q cwnd q' cw pr,
@@ -198,7 +217,10 @@ Qed.
 Lemma is_nil_spec {A} (l : list A) : is_nil l = true <-> l = [].
 Proof. destruct l; simpl; split; intros; congruence. Qed.
 
-Lemma drive_send_spec f c now c' o : drive_send f c now = (c', o) ->
+Lemma emits_ok_app_l nr src o1 o2 : emits_ok nr src (o1 ++ o2) -> emits_ok nr src o1.
+Proof. intros H pk Hin. apply H. apply in_or_app; left; exact Hin. Qed.
+
+Lemma drive_send_spec f c now fj c' o e : drive_send f c now fj = (c', o, e) ->
   c_ns c' = c_ns c /\ c_nr c' = c_nr c /\ c_cwnd c' = c_cwnd c /\ c_ssth c' = c_ssth c /\
   c_pw c' = c_pw c /\
   map key (c_q c') = map key (c_q c) /\ emits_ok (c_nr c) (c_q c) o /\
@@ -207,16 +229,17 @@ Lemma drive_send_spec f c now c' o : drive_send f c now = (c', o) ->
   (o = [] -> c_zlb c' = c_zlb c) /\ (o <> [] -> c_zlb c' = None).
 Proof.
   unfold drive_send.
-  destruct (drive_q (c_cwnd c) (c_nr c) (now + f_rto_init f) (count_inflight (c_q c)) (c_q c))
-    as [q' o'] eqn:E.
+  destruct (drive_q (c_cwnd c) (c_nr c) (now + f_rto_init f) (count_inflight (c_q c)) fj (c_q c))
+    as [[q' o'] e'] eqn:E.
   intros H; inversion H; subst; clear H. cbn [c_ns c_nr c_cwnd c_ssth c_pw c_q c_zlb].
-  destruct (drive_q_spec _ _ _ _ _ _ _ E) as (K & Em & C1 & C2 & At).
+  destruct (drive_q_spec _ _ _ _ _ _ _ _ _ E) as (K & Em & C1 & C2 & At).
+  apply emits_ok_app_l in Em.
   splits; auto; try lia.
   - intros ->. reflexivity.
   - intros Hn. destruct o; [congruence|reflexivity].
 Qed.
 
-Lemma send_session_spec f c body sid now c' o : send_session f c body sid now = (c', o) ->
+Lemma send_session_spec f c body sid now fj c' o e : send_session f c body sid now fj = (c', o, e) ->
   c_ns c' = u16 (c_ns c + 1) /\ c_nr c' = c_nr c /\ c_pw c' = c_pw c /\ c_cwnd c' = c_cwnd c /\
   map key (c_q c') = map key (c_q c) ++ [(c_ns c, body)] /\
   (forall pk, In pk o -> k_nr pk = c_nr c /\
@@ -238,7 +261,7 @@ Proof.
     cbn [p_att]. lia.
 Qed.
 
-Lemma ack_through_spec f c ack now c' o : ack_through f c ack now = (c', o) ->
+Lemma ack_through_spec f c ack now fj c' o e : ack_through f c ack now fj = (c', o, e) ->
   c_ns c' = c_ns c /\ c_nr c' = c_nr c /\ c_pw c' = c_pw c /\
   (exists popped rest, c_q c = popped ++ rest /\ map key (c_q c') = map key rest /\
      (forall p, In p popped -> seq_less (p_ns p) ack = true)) /\
@@ -270,7 +293,7 @@ Proof.
     + intros Hn; congruence.
 Qed.
 
-Lemma recv_spec f c ns nr now c' o h : recv f c ns nr now = (c', o, h) ->
+Lemma recv_spec f c ns nr now fj c' o e h : recv f c ns nr now fj = (c', o, e, h) ->
   h = (ns =? c_nr c) /\
   c_ns c' = c_ns c /\ c_nr c' = (if h then u16 (c_nr c + 1) else c_nr c) /\ c_pw c' = c_pw c /\
   (exists popped rest, c_q c = popped ++ rest /\ map key (c_q c') = map key rest /\
@@ -281,7 +304,7 @@ Lemma recv_spec f c ns nr now c' o h : recv f c ns nr now = (c', o, h) ->
   (forall maxr, 1 <= maxr -> att_ok maxr (c_q c) -> att_ok maxr (c_q c')) /\
   c_zlb c' = Some (now + f_zlb f).
 Proof.
-  unfold recv. destruct (ack_through f c nr now) as [c1 o1] eqn:E.
+  unfold recv. destruct (ack_through f c nr now fj) as [[c1 o1] e1] eqn:E.
   apply ack_through_spec in E. destruct E as (A & B & C & Q & Em & Cw & Cn & At & _).
   destruct (negb (ns =? c_nr c1)) eqn:En; intros H; inversion H; subst; clear H;
     cbn [c_ns c_nr c_cwnd c_ssth c_pw c_q c_zlb]; rewrite B in En |- *.
@@ -377,11 +400,11 @@ Record dir_inv (o : Z) (S R : endpoint) : Prop := {
 Ltac ep_simpl := cbn [e_f e_ch e_sent e_sub e_del e_acked e_dead e_wmax] in *.
 
 (* ---- submit ---- *)
-Lemma submit_sender o S R body sid now S' ob :
-  dir_inv o S R -> ep_submit S body sid now = (S', ob) -> dir_inv o S' R.
+Lemma submit_sender o S R body sid now fj S' ob :
+  dir_inv o S R -> ep_submit S body sid now fj = (S', ob) -> dir_inv o S' R.
 Proof.
   intros [Hns [pre Hq] Hnr [rest Hp] HsS HsR Hack Hbase] H. unfold ep_submit in H.
-  destruct (send_session (e_f S) (e_ch S) body sid now) as [c' o'] eqn:E.
+  destruct (send_session (e_f S) (e_ch S) body sid now fj) as [[c' o'] er] eqn:E.
   inversion H; subst; clear H.
   apply send_session_spec in E. destruct E as (A & B & _ & _ & K & Em & _).
   assert (Hst : stamped o 0 (e_sub S ++ [body]) = pre ++ map key (c_q c')).
@@ -402,11 +425,11 @@ Proof.
     rewrite app_length. simpl. lia.
 Qed.
 
-Lemma submit_receiver o S R body sid now R' ob :
-  dir_inv o S R -> ep_submit R body sid now = (R', ob) -> dir_inv o S R'.
+Lemma submit_receiver o S R body sid now fj R' ob :
+  dir_inv o S R -> ep_submit R body sid now fj = (R', ob) -> dir_inv o S R'.
 Proof.
   intros [Hns Hq Hnr Hp HsS HsR Hack Hbase] H. unfold ep_submit in H.
-  destruct (send_session (e_f R) (e_ch R) body sid now) as [c' o'] eqn:E.
+  destruct (send_session (e_f R) (e_ch R) body sid now fj) as [[c' o'] er] eqn:E.
   inversion H; subst; clear H.
   apply send_session_spec in E. destruct E as (_ & B & _ & _ & _ & Em & _).
   constructor; ep_simpl; auto.
@@ -416,8 +439,14 @@ Proof.
 Qed.
 
 (* ---- tick ---- *)
-Lemma tick_sender o S R now S' ob :
-  dir_inv o S R -> ep_tick S now = (S', ob) -> dir_inv o S' R.
+Lemma keep_ok_in drops : forall o i pk, In pk (keep_ok drops i o) -> In pk o.
+Proof.
+  induction o as [|p r IH]; intros i pk H; simpl in *; [exact H|].
+  destruct (existsb (Nat.eqb i) drops); [right; eauto|]. destruct H as [<-|H]; [left; reflexivity|right; eauto].
+Qed.
+
+Lemma tick_sender o S R now drops S' ob :
+  dir_inv o S R -> ep_tick S now drops = (S', ob) -> dir_inv o S' R.
 Proof.
   intros [Hns [pre Hq] Hnr Hp HsS HsR Hack Hbase] H. unfold ep_tick in H.
   destruct (tick (e_f S) (e_ch S) now) as [[[c' o'] d] ret] eqn:E.
@@ -428,7 +457,7 @@ Proof.
   - destruct K as [K|K].
     + exists pre. rewrite K. exact Hq.
     + exists (stamped o 0 (e_sub S)). rewrite K. simpl. rewrite app_nil_r. reflexivity.
-  - intros pk b Hin Hb. apply in_app_or in Hin as [Hin|Hin]; [eauto|].
+  - intros pk b Hin Hb. apply in_app_or in Hin as [Hin|Hin]; [eauto|]. apply keep_ok_in in Hin.
     rewrite Hq. apply in_or_app; right. destruct (Em pk Hin) as [_ Y]. auto.
   - destruct d; [discriminate|]. intros Hd. specialize (Hbase Hd).
     assert (length (c_q c') = length (c_q (e_ch S))).
@@ -436,8 +465,8 @@ Proof.
     lia.
 Qed.
 
-Lemma tick_receiver o S R now R' ob :
-  dir_inv o S R -> ep_tick R now = (R', ob) -> dir_inv o S R'.
+Lemma tick_receiver o S R now drops R' ob :
+  dir_inv o S R -> ep_tick R now drops = (R', ob) -> dir_inv o S R'.
 Proof.
   intros [Hns Hq Hnr Hp HsS HsR Hack Hbase] H. unfold ep_tick in H.
   destruct (tick (e_f R) (e_ch R) now) as [[[c' o'] d] ret] eqn:E.
@@ -445,7 +474,7 @@ Proof.
   apply tick_spec in E. destruct E as (_ & B & _ & _ & Em & _).
   constructor; ep_simpl; auto.
   - rewrite B; exact Hnr.
-  - intros pk Hin. apply in_app_or in Hin as [Hin|Hin]; [auto|].
+  - intros pk Hin. apply in_app_or in Hin as [Hin|Hin]; [auto|]. apply keep_ok_in in Hin.
     destruct (Em pk Hin) as [X _]. exists (length (e_del R)). split; [lia|]. rewrite X; exact Hnr.
 Qed.
 
@@ -466,7 +495,7 @@ Qed.
 
 (* ---- deliver (repaired dispatch rule) ---- *)
 (* what the repaired dispatch does to a channel, for data and ZLB alike *)
-Lemma dispatch_repaired_spec f c p now c' o h : dispatch false f c p now = (c', o, h) ->
+Lemma dispatch_repaired_spec f c p now fj c' o e h : dispatch false f c p now fj = (c', o, e, h) ->
   c_ns c' = c_ns c /\
   (exists popped rest, c_q c = popped ++ rest /\ map key (c_q c') = map key rest /\
      (forall x, In x popped -> seq_less (p_ns x) (k_nr p) = true)) /\
@@ -478,16 +507,16 @@ Lemma dispatch_repaired_spec f c p now c' o h : dispatch false f c p now = (c', 
 Proof.
   unfold dispatch. destruct (k_body p) as [b|].
   - intros H. apply recv_spec in H. destruct H as (Hh & A & B & _ & Q & Em & _). splits; auto.
-  - destruct (ack_through f c (k_nr p) now) as [c1 o1] eqn:E. intros H; inversion H; subst; clear H.
+  - destruct (ack_through f c (k_nr p) now fj) as [[c1 o1] e1] eqn:E. intros H; inversion H; subst; clear H.
     apply ack_through_spec in E. destruct E as (A & B & _ & Q & Em & _). splits; auto.
 Qed.
 
-Lemma deliver_sender o S R pk now S' ob :
+Lemma deliver_sender o S R pk now fj S' ob :
   dir_inv o S R -> In pk (e_sent R) -> Z.of_nat (length (e_sub S)) < 32768 ->
-  ep_deliver false S pk now = (S', ob) -> dir_inv o S' R.
+  ep_deliver false S pk now fj = (S', ob) -> dir_inv o S' R.
 Proof.
   intros [Hns [pre Hq] Hnr [rest Hp] HsS HsR Hack Hbase] Hpk Hb H. unfold ep_deliver in H.
-  destruct (dispatch false (e_f S) (e_ch S) pk now) as [[c' o'] h] eqn:E.
+  destruct (dispatch false (e_f S) (e_ch S) pk now fj) as [[[c' o'] er] h] eqn:E.
   inversion H; subst; clear H.
   apply dispatch_repaired_spec in E. destruct E as (A & (popped & rst & Q1 & Q2 & Q3) & Em & _).
   assert (Hl : length (c_q c') = length rst).
@@ -527,12 +556,12 @@ Proof.
     simpl in *. lia.
 Qed.
 
-Lemma deliver_receiver o S R pk now R' ob :
+Lemma deliver_receiver o S R pk now fj R' ob :
   dir_inv o S R -> In pk (e_sent S) -> Z.of_nat (length (e_sub S)) < 32768 ->
-  ep_deliver false R pk now = (R', ob) -> dir_inv o S R'.
+  ep_deliver false R pk now fj = (R', ob) -> dir_inv o S R'.
 Proof.
   intros [Hns Hq Hnr [rest Hp] HsS HsR Hack Hbase] Hpk Hb H. unfold ep_deliver in H.
-  destruct (dispatch false (e_f R) (e_ch R) pk now) as [[c' o'] h] eqn:E.
+  destruct (dispatch false (e_f R) (e_ch R) pk now fj) as [[[c' o'] er] h] eqn:E.
   inversion H; subst; clear H.
   apply dispatch_repaired_spec in E. destruct E as (_ & _ & Em & Hbody).
   assert (Hdel : (length (e_del R) <= length (e_sub S))%nat).
@@ -575,11 +604,11 @@ Definition sys_inv (oa ob : Z) (s : sys) : Prop :=
 Definition bounded (s : sys) : Prop :=
   Z.of_nat (length (e_sub (s_a s))) < 32768 /\ Z.of_nat (length (e_sub (s_b s))) < 32768.
 
-Lemma ep_submit_sub e body sid now : e_sub (fst (ep_submit e body sid now)) = e_sub e ++ [body].
-Proof. unfold ep_submit. destruct (send_session _ _ _ _ _); reflexivity. Qed.
-Lemma ep_deliver_sub z e p now : e_sub (fst (ep_deliver z e p now)) = e_sub e.
-Proof. unfold ep_deliver. destruct (dispatch _ _ _ _ _) as [[? ?] ?]; reflexivity. Qed.
-Lemma ep_tick_sub e now : e_sub (fst (ep_tick e now)) = e_sub e.
+Lemma ep_submit_sub e body sid now fj : e_sub (fst (ep_submit e body sid now fj)) = e_sub e ++ [body].
+Proof. unfold ep_submit. destruct (send_session _ _ _ _ _ _) as [[? ?] ?]; reflexivity. Qed.
+Lemma ep_deliver_sub z e p now fj : e_sub (fst (ep_deliver z e p now fj)) = e_sub e.
+Proof. unfold ep_deliver. destruct (dispatch _ _ _ _ _ _) as [[[? ?] ?] ?]; reflexivity. Qed.
+Lemma ep_tick_sub e now drops : e_sub (fst (ep_tick e now drops)) = e_sub e.
 Proof. unfold ep_tick. destruct (tick _ _ _) as [[[? ?] ?] ?]; reflexivity. Qed.
 Lemma ep_setwin_sub e w : e_sub (fst (ep_setwin e w)) = e_sub e.
 Proof. reflexivity. Qed.
@@ -595,16 +624,16 @@ Proof.
   assert (G : forall x e, (length (e_sub (ep s x)) <= length (e_sub e))%nat ->
               (length (e_sub (ep s y)) <= length (e_sub (ep (set_ep s x e) y)))%nat).
   { intros x e H. destruct x, y; simpl in *; auto. }
-  destruct ev as [x body sid now|x idx now|x p now|x now|x w]; unfold step.
-  - pose proof (ep_submit_sub (ep s x) body sid now) as E.
-    destruct (ep_submit (ep s x) body sid now) as [e ob]. simpl in *. apply G. rewrite E, app_length. lia.
+  destruct ev as [x body sid now fj|x idx now fj|x p now fj|x now drops|x w]; unfold step.
+  - pose proof (ep_submit_sub (ep s x) body sid now fj) as E.
+    destruct (ep_submit (ep s x) body sid now fj) as [e ob]. simpl in *. apply G. rewrite E, app_length. lia.
   - destruct (nth_error _ idx) as [p|]; [|simpl; lia].
-    pose proof (ep_deliver_sub z (ep s x) p now) as E.
-    destruct (ep_deliver z (ep s x) p now) as [e ob]. simpl in *. apply G. rewrite E. lia.
-  - pose proof (ep_deliver_sub z (ep s x) p now) as E.
-    destruct (ep_deliver z (ep s x) p now) as [e ob]. simpl in *. apply G. rewrite E. lia.
-  - pose proof (ep_tick_sub (ep s x) now) as E.
-    destruct (ep_tick (ep s x) now) as [e ob]. simpl in *. apply G. rewrite E. lia.
+    pose proof (ep_deliver_sub z (ep s x) p now fj) as E.
+    destruct (ep_deliver z (ep s x) p now fj) as [e ob]. simpl in *. apply G. rewrite E. lia.
+  - pose proof (ep_deliver_sub z (ep s x) p now fj) as E.
+    destruct (ep_deliver z (ep s x) p now fj) as [e ob]. simpl in *. apply G. rewrite E. lia.
+  - pose proof (ep_tick_sub (ep s x) now drops) as E.
+    destruct (ep_tick (ep s x) now drops) as [e ob]. simpl in *. apply G. rewrite E. lia.
   - simpl. apply G. simpl. lia.
 Qed.
 
@@ -619,14 +648,14 @@ Lemma step_inv oa ob s ev :
   sys_inv oa ob s -> is_inject ev = false -> bounded s -> sys_inv oa ob (fst (step false s ev)).
 Proof.
   intros [IA IB] Hh [BA BB].
-  destruct ev as [x body sid now|x idx now|x p now|x now|x w]; try discriminate; unfold step.
-  - destruct (ep_submit (ep s x) body sid now) as [e ob'] eqn:E. destruct x; simpl in *; split;
+  destruct ev as [x body sid now fj|x idx now fj|x p now fj|x now drops|x w]; try discriminate; unfold step.
+  - destruct (ep_submit (ep s x) body sid now fj) as [e ob'] eqn:E. destruct x; simpl in *; split;
       eauto using submit_sender, submit_receiver.
   - destruct (nth_error (e_sent (ep s (peer x))) idx) as [p|] eqn:En; [|split; assumption].
     apply nth_error_In in En.
-    destruct (ep_deliver false (ep s x) p now) as [e ob'] eqn:E. destruct x; simpl in *; split;
+    destruct (ep_deliver false (ep s x) p now fj) as [e ob'] eqn:E. destruct x; simpl in *; split;
       eauto using deliver_sender, deliver_receiver.
-  - destruct (ep_tick (ep s x) now) as [e ob'] eqn:E. destruct x; simpl in *; split;
+  - destruct (ep_tick (ep s x) now drops) as [e ob'] eqn:E. destruct x; simpl in *; split;
       eauto using tick_sender, tick_receiver.
   - destruct (ep_setwin (ep s x) w) as [e ob'] eqn:E. destruct x; simpl in *; split;
       eauto using setwin_sender, setwin_receiver.
@@ -691,35 +720,35 @@ Record ep_ok (e : endpoint) : Prop := {
   ok_infl : count_inflight (c_q (e_ch e)) <= e_wmax e;
   ok_att : att_ok (f_maxr (e_f e)) (c_q (e_ch e)) }.
 
-Lemma submit_ok e body sid now : ep_ok e -> ep_ok (fst (ep_submit e body sid now)).
+Lemma submit_ok e body sid now fj : ep_ok e -> ep_ok (fst (ep_submit e body sid now fj)).
 Proof.
   intros [M W C P I A]. unfold ep_submit.
-  destruct (send_session (e_f e) (e_ch e) body sid now) as [c' o] eqn:E. simpl.
+  destruct (send_session (e_f e) (e_ch e) body sid now fj) as [[c' o] er] eqn:E. simpl.
   apply send_session_spec in E. destruct E as (_ & _ & Pw & Cw & _ & _ & Cn & At & _).
   constructor; ep_simpl; auto; try lia.
 Qed.
 
-Lemma deliver_ok z e p now : ep_ok e -> ep_ok (fst (ep_deliver z e p now)).
+Lemma deliver_ok z e p now fj : ep_ok e -> ep_ok (fst (ep_deliver z e p now fj)).
 Proof.
   intros [M W C P I A]. unfold ep_deliver.
-  destruct (dispatch z (e_f e) (e_ch e) p now) as [[c' o] h] eqn:E. simpl.
+  destruct (dispatch z (e_f e) (e_ch e) p now fj) as [[[c' o] er] h] eqn:E. simpl.
   assert (G : c_pw c' = c_pw (e_ch e) /\
               (c_cwnd c' = c_cwnd (e_ch e) \/ c_cwnd c' <= c_pw (e_ch e)) /\
               count_inflight (c_q c') <= Z.max (count_inflight (c_q (e_ch e))) (c_cwnd c') /\
               (forall maxr, 1 <= maxr -> att_ok maxr (c_q (e_ch e)) -> att_ok maxr (c_q c'))).
   { unfold dispatch in E. destruct (k_body p); [|destruct z].
     - apply recv_spec in E. destruct E as (_ & _ & _ & Pw & _ & _ & Cw & Cn & At & _). auto.
-    - destruct (recv (e_f e) (e_ch e) (k_ns p) (k_nr p) now) as [[c1 o1] h1] eqn:E1.
+    - destruct (recv (e_f e) (e_ch e) (k_ns p) (k_nr p) now fj) as [[[c1 o1] e1] h1] eqn:E1.
       inversion E; subst. apply recv_spec in E1.
       destruct E1 as (_ & _ & _ & Pw & _ & _ & Cw & Cn & At & _). auto.
-    - destruct (ack_through (e_f e) (e_ch e) (k_nr p) now) as [c1 o1] eqn:E1.
+    - destruct (ack_through (e_f e) (e_ch e) (k_nr p) now fj) as [[c1 o1] e1] eqn:E1.
       inversion E; subst. apply ack_through_spec in E1.
       destruct E1 as (_ & _ & Pw & _ & _ & Cw & Cn & At & _). auto. }
   destruct G as (Pw & Cw & Cn & At).
   constructor; ep_simpl; auto; try lia.
 Qed.
 
-Lemma tick_ok e now : ep_ok e -> ep_ok (fst (ep_tick e now)).
+Lemma tick_ok e now drops : ep_ok e -> ep_ok (fst (ep_tick e now drops)).
 Proof.
   intros [M W C P I A]. unfold ep_tick.
   destruct (tick (e_f e) (e_ch e) now) as [[[c' o] d] ret] eqn:E. simpl.
@@ -743,16 +772,16 @@ Proof.
   assert (G : forall x e, ep_ok e -> sys_ok (set_ep s x e)).
   { intros x e H. destruct x; split; simpl; auto. }
   assert (Hx : forall x, ep_ok (ep s x)) by (intros []; assumption).
-  destruct ev as [x body sid now|x idx now|x p now|x now|x w]; unfold step.
-  - pose proof (submit_ok _ body sid now (Hx x)).
-    destruct (ep_submit (ep s x) body sid now); simpl in *; auto.
+  destruct ev as [x body sid now fj|x idx now fj|x p now fj|x now drops|x w]; unfold step.
+  - pose proof (submit_ok _ body sid now fj (Hx x)).
+    destruct (ep_submit (ep s x) body sid now fj); simpl in *; auto.
   - destruct (nth_error _ idx) as [p|]; [|split; assumption].
-    pose proof (deliver_ok z _ p now (Hx x)).
-    destruct (ep_deliver z (ep s x) p now); simpl in *; auto.
-  - pose proof (deliver_ok z _ p now (Hx x)).
-    destruct (ep_deliver z (ep s x) p now); simpl in *; auto.
-  - pose proof (tick_ok _ now (Hx x)).
-    destruct (ep_tick (ep s x) now); simpl in *; auto.
+    pose proof (deliver_ok z _ p now fj (Hx x)).
+    destruct (ep_deliver z (ep s x) p now fj); simpl in *; auto.
+  - pose proof (deliver_ok z _ p now fj (Hx x)).
+    destruct (ep_deliver z (ep s x) p now fj); simpl in *; auto.
+  - pose proof (tick_ok _ now drops (Hx x)).
+    destruct (ep_tick (ep s x) now drops); simpl in *; auto.
   - pose proof (setwin_ok _ w (Hx x)). simpl in *; auto.
 Qed.
 
@@ -790,11 +819,11 @@ Proof.
   intros H.
   assert (G : forall x e, e_wmax e = e_wmax (ep s x) -> e_wmax (ep (set_ep s x e) y) = e_wmax (ep s y)).
   { intros x e E. destruct x, y; simpl in *; auto. }
-  destruct ev as [x body sid now|x idx now|x p now|x now|x w]; try discriminate; unfold step.
-  - unfold ep_submit. destruct (send_session _ _ _ _ _); simpl. apply G; reflexivity.
+  destruct ev as [x body sid now fj|x idx now fj|x p now fj|x now drops|x w]; try discriminate; unfold step.
+  - unfold ep_submit. destruct (send_session _ _ _ _ _ _) as [[? ?] ?]; simpl. apply G; reflexivity.
   - destruct (nth_error _ idx) as [p|]; [|reflexivity].
-    unfold ep_deliver. destruct (dispatch _ _ _ _ _) as [[? ?] ?]; simpl. apply G; reflexivity.
-  - unfold ep_deliver. destruct (dispatch _ _ _ _ _) as [[? ?] ?]; simpl. apply G; reflexivity.
+    unfold ep_deliver. destruct (dispatch _ _ _ _ _ _) as [[[? ?] ?] ?]; simpl. apply G; reflexivity.
+  - unfold ep_deliver. destruct (dispatch _ _ _ _ _ _) as [[[? ?] ?] ?]; simpl. apply G; reflexivity.
   - unfold ep_tick. destruct (tick _ _ _) as [[[? ?] ?] ?]; simpl. apply G; reflexivity.
 Qed.
 
@@ -851,37 +880,42 @@ Proof.
   - left. rewrite last_nr_app, Hn. symmetry. apply last_nr_const; [discriminate|exact Ho].
 Qed.
 
-Lemma submit_ack nr0 e body sid now : ack_ok nr0 e -> ack_ok nr0 (fst (ep_submit e body sid now)).
+Lemma submit_ack nr0 e body sid now fj : ack_ok nr0 e -> ack_ok nr0 (fst (ep_submit e body sid now fj)).
 Proof.
   intros H. unfold ep_submit.
-  destruct (send_session (e_f e) (e_ch e) body sid now) as [c' o] eqn:E. simpl.
+  destruct (send_session (e_f e) (e_ch e) body sid now fj) as [[c' o] er] eqn:E. simpl.
   apply send_session_spec in E. destruct E as (_ & B & _ & _ & _ & Em & _ & _ & Z1 & _).
   unfold ack_ok; ep_simpl. apply ack_ok_same; auto. intros p Hp. apply (Em p Hp).
 Qed.
 
-Lemma deliver_ack z nr0 e p now : ack_ok nr0 e -> ack_ok nr0 (fst (ep_deliver z e p now)).
+Lemma deliver_ack z nr0 e p now fj : ack_ok nr0 e -> ack_ok nr0 (fst (ep_deliver z e p now fj)).
 Proof.
   intros H. unfold ep_deliver.
-  destruct (dispatch z (e_f e) (e_ch e) p now) as [[c' o] h] eqn:E. simpl.
+  destruct (dispatch z (e_f e) (e_ch e) p now fj) as [[[c' o] er] h] eqn:E. simpl.
   unfold ack_ok; ep_simpl.
-  assert (R : forall c1 o1 h1, recv (e_f e) (e_ch e) (k_ns p) (k_nr p) now = (c1, o1, h1) ->
+  assert (R : forall c1 o1 e1 h1, recv (e_f e) (e_ch e) (k_ns p) (k_nr p) now fj = (c1, o1, e1, h1) ->
               c_zlb c1 <> None).
-  { intros c1 o1 h1 E1. apply recv_spec in E1.
+  { intros c1 o1 e1 h1 E1. apply recv_spec in E1.
     destruct E1 as (_ & _ & _ & _ & _ & _ & _ & _ & _ & Zl). rewrite Zl; discriminate. }
   unfold dispatch in E. destruct (k_body p); [|destruct z].
   - right. eapply R; eauto.
-  - destruct (recv (e_f e) (e_ch e) (k_ns p) (k_nr p) now) as [[c1 o1] h1] eqn:E1.
+  - destruct (recv (e_f e) (e_ch e) (k_ns p) (k_nr p) now fj) as [[[c1 o1] e1] h1] eqn:E1.
     inversion E; subst. right. eapply R; eauto.
-  - destruct (ack_through (e_f e) (e_ch e) (k_nr p) now) as [c1 o1] eqn:E1.
+  - destruct (ack_through (e_f e) (e_ch e) (k_nr p) now fj) as [[c1 o1] e1] eqn:E1.
     inversion E; subst. apply ack_through_spec in E1.
     destruct E1 as (_ & B & _ & _ & Em & _ & _ & _ & Z1 & _).
     apply ack_ok_same; auto. intros x Hx. apply (Em x Hx).
 Qed.
 
-Lemma tick_ack nr0 e now : ack_ok nr0 e -> ack_ok nr0 (fst (ep_tick e now)).
+Lemma keep_ok_nil : forall o i, keep_ok [] i o = o.
+Proof. induction o as [|p r IH]; intros i; simpl; [reflexivity|]. rewrite IH; reflexivity. Qed.
+
+(* a ZLB whose write fails inside Tick is forgotten by the channel (Tick ignores write errors and clears
+   zlbDeadline): the invariant is about executions in which Tick's writes succeed *)
+Lemma tick_ack nr0 e now : ack_ok nr0 e -> ack_ok nr0 (fst (ep_tick e now [])).
 Proof.
   intros H. unfold ep_tick.
-  destruct (tick (e_f e) (e_ch e) now) as [[[c' o] d] ret] eqn:E. simpl.
+  destruct (tick (e_f e) (e_ch e) now) as [[[c' o] d] ret] eqn:E. simpl. rewrite keep_ok_nil.
   apply tick_spec in E. destruct E as (_ & B & _ & _ & Em & _ & _ & _ & Z1 & _).
   unfold ack_ok; ep_simpl. apply ack_ok_same; auto. intros x Hx. apply (Em x Hx).
 Qed.
@@ -889,40 +923,47 @@ Qed.
 Lemma setwin_ack nr0 e w : ack_ok nr0 e -> ack_ok nr0 (fst (ep_setwin e w)).
 Proof. intros H. exact H. Qed.
 
+Definition tick_faultless (ev : event) : bool :=
+  match ev with Tick _ _ (_ :: _) => false | _ => true end.
+
 Lemma step_ack z na nb s ev :
+  tick_faultless ev = true ->
   ack_ok na (s_a s) /\ ack_ok nb (s_b s) ->
   ack_ok na (s_a (fst (step z s ev))) /\ ack_ok nb (s_b (fst (step z s ev))).
 Proof.
-  intros [A B].
+  intros Hf [A B].
   set (nrx := fun x => match x with SA => na | SB => nb end).
   assert (Hx : forall x, ack_ok (nrx x) (ep s x)) by (intros []; assumption).
   assert (G : forall x e, ack_ok (nrx x) e ->
               ack_ok na (s_a (set_ep s x e)) /\ ack_ok nb (s_b (set_ep s x e))).
   { intros x e H. destruct x; split; simpl; auto. }
-  destruct ev as [x body sid now|x idx now|x p now|x now|x w]; unfold step.
-  - pose proof (submit_ack _ _ body sid now (Hx x)).
-    destruct (ep_submit (ep s x) body sid now); simpl in *; auto.
+  destruct ev as [x body sid now fj|x idx now fj|x p now fj|x now drops|x w]; unfold step.
+  - pose proof (submit_ack _ _ body sid now fj (Hx x)).
+    destruct (ep_submit (ep s x) body sid now fj); simpl in *; auto.
   - destruct (nth_error _ idx) as [p|]; [|split; assumption].
-    pose proof (deliver_ack z _ _ p now (Hx x)).
-    destruct (ep_deliver z (ep s x) p now); simpl in *; auto.
-  - pose proof (deliver_ack z _ _ p now (Hx x)).
-    destruct (ep_deliver z (ep s x) p now); simpl in *; auto.
-  - pose proof (tick_ack _ _ now (Hx x)).
-    destruct (ep_tick (ep s x) now); simpl in *; auto.
+    pose proof (deliver_ack z _ _ p now fj (Hx x)).
+    destruct (ep_deliver z (ep s x) p now fj); simpl in *; auto.
+  - pose proof (deliver_ack z _ _ p now fj (Hx x)).
+    destruct (ep_deliver z (ep s x) p now fj); simpl in *; auto.
+  - destruct drops; [|discriminate]. pose proof (tick_ack _ _ now (Hx x)).
+    destruct (ep_tick (ep s x) now []); simpl in *; auto.
   - pose proof (setwin_ack _ _ w (Hx x)). simpl in *; auto.
 Qed.
 
 (* after any execution: whenever an endpoint's Nr differs from the Nr it last sent to the peer
    (it has received something it has not acknowledged yet) its ZLB timer is armed *)
 Lemma ack_owed z ai am ar az aw bi bm br bz bw oa ob evs :
+  forallb tick_faultless evs = true ->
   let s := run z (init_sys (ai, am, ar, az, aw) (bi, bm, br, bz, bw) oa ob) evs in
   ack_ok (u16 ob) (s_a s) /\ ack_ok (u16 oa) (s_b s).
 Proof.
-  cbv zeta.
-  assert (G : forall evs s, ack_ok (u16 ob) (s_a s) /\ ack_ok (u16 oa) (s_b s) ->
+  intros Hf. cbv zeta.
+  assert (G : forall evs s, forallb tick_faultless evs = true ->
+              ack_ok (u16 ob) (s_a s) /\ ack_ok (u16 oa) (s_b s) ->
               ack_ok (u16 ob) (s_a (run z s evs)) /\ ack_ok (u16 oa) (s_b (run z s evs))).
-  { induction evs0 as [|ev r IH]; intros s H; simpl; auto using step_ack. }
-  apply G. split; left; reflexivity.
+  { induction evs0 as [|ev r IH]; intros s Hfl H; simpl in *; auto.
+    apply andb_true_iff in Hfl as [F1 F2]. apply IH; auto using step_ack. }
+  apply G; [exact Hf|]. split; left; reflexivity.
 Qed.
 
 (* and an armed ZLB timer that has expired produces a packet carrying the current Nr at the next
@@ -977,8 +1018,8 @@ Qed.
 
 (* ================= the code as it is today violates exactly-once ================= *)
 Definition witness : list event :=
-  [ Submit SA 100 0 0; Deliver SB 0 10; Tick SB 100; Deliver SA 0 110;
-    Submit SB 200 0 120; Deliver SA 1 130; Tick SA 400; Deliver SB 1 410 ].
+  [ Submit SA 100 0 0 None; Deliver SB 0 10 None; Tick SB 100 []; Deliver SA 0 110 None;
+    Submit SB 200 0 120 None; Deliver SA 1 130 None; Tick SA 400 []; Deliver SB 1 410 None ].
 Definition witness_cfg : Z * Z * Z * Z * Z := (100, 400, 3, 50, 2).
 
 Lemma defective_loses_message :
@@ -995,12 +1036,12 @@ Proof. vm_compute. splits; reflexivity. Qed.
 
 (* a run across the 16-bit wrap with a lost packet, a retransmission and a duplicate delivery *)
 Definition wrap_run : list event :=
-  [ Submit SA 100 0 0; Submit SA 101 0 5;          (* Ns 65535 and 0; window 1: only the first goes out *)
-    Tick SA 150;                                   (* first copy "lost": retransmit *)
-    Deliver SB 1 160; Deliver SB 1 165;            (* the retransmission arrives twice *)
-    Tick SB 300; Deliver SA 0 310;                 (* B's ZLB acknowledges; A sends 101 *)
-    Deliver SB 2 320; Deliver SB 0 330;            (* 101 arrives; the delayed first copy of 100 arrives last *)
-    Submit SB 200 7 340; Deliver SA 1 350 ].
+  [ Submit SA 100 0 0 None; Submit SA 101 0 5 None;          (* Ns 65535 and 0; window 1: only the first goes out *)
+    Tick SA 150 [];                                   (* first copy "lost": retransmit *)
+    Deliver SB 1 160 None; Deliver SB 1 165 None;            (* the retransmission arrives twice *)
+    Tick SB 300 []; Deliver SA 0 310 None;                 (* B's ZLB acknowledges; A sends 101 *)
+    Deliver SB 2 320 None; Deliver SB 0 330 None;            (* 101 arrives; the delayed first copy of 100 arrives last *)
+    Submit SB 200 7 340 None; Deliver SA 1 350 None ].
 Lemma wrap_run_ok :
   let s := run false (init_sys (100, 400, 3, 50, 1) (100, 400, 3, 50, 1) 65535 32767) wrap_run in
   honest wrap_run = true /\
@@ -1010,8 +1051,8 @@ Proof. vm_compute. splits; reflexivity. Qed.
 
 (* every real (non-ZLB) message that reaches the channel arms the ZLB timer, whether it is accepted,
    a duplicate or from the future, under both dispatch rules *)
-Lemma data_arms_ack z f c p b now c' o h :
-  k_body p = Some b -> dispatch z f c p now = (c', o, h) -> c_zlb c' = Some (now + f_zlb f).
+Lemma data_arms_ack z f c p b now fj c' o e h :
+  k_body p = Some b -> dispatch z f c p now fj = (c', o, e, h) -> c_zlb c' = Some (now + f_zlb f).
 Proof.
   intros Hb H. unfold dispatch in H. rewrite Hb in H. apply recv_spec in H.
   destruct H as (_ & _ & _ & _ & _ & _ & _ & _ & _ & Z1). exact Z1.
@@ -1055,7 +1096,7 @@ Proof.
 Qed.
 
 Definition ex_conf : conf := new_conf 100 400 3 50.
-Definition ex_chan : chan := fst (send_session ex_conf (new_chan 1) 100 0 0).
+Definition ex_chan : chan := fst (fst (send_session ex_conf (new_chan 1) 100 0 0 None)).
 Lemma dead_example :
   (exists p r, c_q ex_chan = p :: r /\ p_att p = 1 /\ p_dl p = 100) /\
   dead_within ex_conf ex_chan [100; 500; 900] = true /\
@@ -1071,14 +1112,14 @@ Definition acked_since (f : conf) (now : Z) (old : list pkt) (e : endpoint) : Pr
     (c_zlb (e_ch e) = Some (now + f_zlb f) \/
      (new <> [] /\ forall d, last_nr d new = c_nr (e_ch e))).
 
-Lemma ep_submit_acked f now old e body sid :
+Lemma ep_submit_acked f now old e body sid fj :
   e_f e = f -> acked_since f now old e ->
-  acked_since f now old (fst (ep_submit e body sid now)) /\
-  c_nr (e_ch (fst (ep_submit e body sid now))) = c_nr (e_ch e) /\
-  e_f (fst (ep_submit e body sid now)) = f.
+  acked_since f now old (fst (ep_submit e body sid now fj)) /\
+  c_nr (e_ch (fst (ep_submit e body sid now fj))) = c_nr (e_ch e) /\
+  e_f (fst (ep_submit e body sid now fj)) = f.
 Proof.
   intros Hf (new & Hs & H). unfold ep_submit.
-  destruct (send_session (e_f e) (e_ch e) body sid now) as [c' o] eqn:E. cbn [fst]; ep_simpl.
+  destruct (send_session (e_f e) (e_ch e) body sid now fj) as [[c' o] er] eqn:E. cbn [fst]; ep_simpl.
   apply send_session_spec in E. destruct E as (_ & B & _ & _ & _ & Em & _ & _ & Z1 & Z2).
   splits; auto. exists (new ++ o). ep_simpl. split; [rewrite Hs, app_assoc; reflexivity|].
   destruct o as [|p r].
@@ -1092,7 +1133,7 @@ Lemma ep_submits_acked f now old rs : forall e,
   acked_since f now old (ep_submits e rs now) /\ c_nr (e_ch (ep_submits e rs now)) = c_nr (e_ch e).
 Proof.
   unfold ep_submits. induction rs as [|r rs IH]; intros e Hf H; simpl; [auto|].
-  destruct (ep_submit_acked f now old e (fst r) (snd r) Hf H) as (A & B & C).
+  destruct (ep_submit_acked f now old e (fst r) (snd r) None Hf H) as (A & B & C).
   destruct (IH _ C A) as [A' B']. split; [exact A'|congruence].
 Qed.
 
@@ -1108,8 +1149,8 @@ Lemma dispatch_acks_everything n m now b :
 Proof.
   intros Hk Ht Hb. unfold node_dispatch. rewrite Hk, Ht. cbn [andb].
   unfold ep_deliver.
-  destruct (dispatch false (e_f (n_ep n)) (e_ch (n_ep n)) (m_pkt m) now) as [[c' o] h] eqn:E.
-  pose proof (data_arms_ack _ _ _ _ _ _ _ _ _ Hb E) as Hz.
+  destruct (dispatch false (e_f (n_ep n)) (e_ch (n_ep n)) (m_pkt m) now None) as [[[c' o] er] h] eqn:E.
+  pose proof (data_arms_ack _ _ _ _ _ _ _ _ _ _ _ Hb E) as Hz.
   unfold dispatch in E. rewrite Hb in E. apply recv_spec in E.
   destruct E as (Hh & _ & Hnr & _).
   set (e1 := mkE (e_f (n_ep n)) c' (e_sent (n_ep n) ++ o) (e_sub (n_ep n))
@@ -1137,7 +1178,7 @@ Proof.
   intros H. unfold node_dispatch. destruct (n_known n && m_tid_ok m) eqn:Ek; [|reflexivity].
   destruct H as [H|H]; [discriminate|].
   unfold ep_deliver.
-  destruct (dispatch false (e_f (n_ep n)) (e_ch (n_ep n)) (m_pkt m) now) as [[c' o] h] eqn:E.
+  destruct (dispatch false (e_f (n_ep n)) (e_ch (n_ep n)) (m_pkt m) now None) as [[[c' o] er] h] eqn:E.
   apply dispatch_repaired_spec in E. rewrite H in E. destruct E as (_ & _ & _ & Hh & Hn).
   subst h. cbn [n_ep e_ch]. exact Hn.
 Qed.
@@ -1202,10 +1243,10 @@ Qed.
 (* ---- the two progress steps of the fair-loss argument ---- *)
 (* (1) if ANY ONE transmission of the message at the head of S's queue reaches R, that message has been
        handed to R's machine (now or earlier) *)
-Lemma head_delivery_progress o S R p r pk b now R' ob :
+Lemma head_delivery_progress o S R p r pk b now fj R' ob :
   dir_inv o S R -> Z.of_nat (length (e_sub S)) < 32768 -> e_dead S = 0%nat ->
   c_q (e_ch S) = p :: r -> k_body pk = Some b -> k_ns pk = p_ns p ->
-  ep_deliver false R pk now = (R', ob) ->
+  ep_deliver false R pk now fj = (R', ob) ->
   (length (e_sub S) - length (c_q (e_ch S)) < length (e_del R'))%nat.
 Proof.
   intros I Hb Hd Hq Hbody Hns H.
@@ -1218,7 +1259,7 @@ Proof.
     { rewrite Hst, nth_error_app2, Nat.sub_diag, Hq by lia. reflexivity. }
     apply stamped_nth in N. destruct N as [N _]. exact N. }
   unfold ep_deliver in H.
-  destruct (dispatch false (e_f R) (e_ch R) pk now) as [[c' o'] h] eqn:E.
+  destruct (dispatch false (e_f R) (e_ch R) pk now fj) as [[[c' o'] er] h] eqn:E.
   inversion H; subst; clear H. ep_simpl.
   apply dispatch_repaired_spec in E. destruct E as (_ & _ & _ & Hx). rewrite Hbody in Hx |- *.
   destruct Hx as [Hh _].
@@ -1232,12 +1273,12 @@ Qed.
 
 (* (2) once it has been handed over, ANY ONE packet R sends from then on (all carry R's current Nr) that
        reaches S removes the message from S's queue *)
-Lemma head_ack_progress o S R p r pk now S' ob :
+Lemma head_ack_progress o S R p r pk now fj S' ob :
   dir_inv o S R -> Z.of_nat (length (e_sub S)) < 32768 ->
   c_q (e_ch S) = p :: r -> 0 < p_att p ->
   (length (e_sub S) - length (c_q (e_ch S)) < length (e_del R))%nat ->
   k_nr pk = c_nr (e_ch R) ->
-  ep_deliver false S pk now = (S', ob) ->
+  ep_deliver false S pk now fj = (S', ob) ->
   (length (c_q (e_ch S')) < length (c_q (e_ch S)))%nat.
 Proof.
   intros I Hb Hq Ha Hlt Hnr H.
@@ -1252,11 +1293,11 @@ Proof.
   assert (Hless : seq_less (p_ns p) (k_nr pk) = true).
   { rewrite Hhead, Hnr, HnrR, seq_less_window by lia. lia. }
   unfold ep_deliver in H.
-  destruct (dispatch false (e_f S) (e_ch S) pk now) as [[c' o'] h] eqn:E.
+  destruct (dispatch false (e_f S) (e_ch S) pk now fj) as [[[c' o'] er] h] eqn:E.
   inversion H; subst; clear H. ep_simpl.
-  assert (G : forall f c1 o1, ack_through f (e_ch S) (k_nr pk) now = (c1, o1) ->
+  assert (G : forall f c1 o1 e1, ack_through f (e_ch S) (k_nr pk) now fj = (c1, o1, e1) ->
               (length (c_q c1) < length (c_q (e_ch S)))%nat).
-  { intros f c1 o1 E1. unfold ack_through in E1. rewrite Hq in E1 |- *. cbn [ack_q] in E1.
+  { intros f c1 o1 e1 E1. unfold ack_through in E1. rewrite Hq in E1 |- *. cbn [ack_q] in E1.
     assert (p_att p =? 0 = false) as Hz by lia. rewrite Hz, Hless in E1.
     match type of E1 with context [ack_q ?a ?cw ?ss ?pw r] =>
       destruct (ack_q a cw ss pw r) as [[q1 cw1] pr1] eqn:E2 end.
@@ -1265,36 +1306,36 @@ Proof.
     assert (length (c_q c1) = length q1) by (rewrite <- (map_length key), K, map_length; reflexivity).
     cbn [length]. rewrite Hr, app_length. lia. }
   unfold dispatch in E. destruct (k_body pk).
-  - unfold recv in E. destruct (ack_through (e_f S) (e_ch S) (k_nr pk) now) as [c1 o1] eqn:E1.
-    pose proof (G _ _ _ E1). destruct (negb (k_ns pk =? c_nr c1)); inversion E; subst; cbn [c_q]; assumption.
-  - destruct (ack_through (e_f S) (e_ch S) (k_nr pk) now) as [c1 o1] eqn:E1.
-    pose proof (G _ _ _ E1). inversion E; subst. assumption.
+  - unfold recv in E. destruct (ack_through (e_f S) (e_ch S) (k_nr pk) now fj) as [[c1 o1] e1] eqn:E1.
+    pose proof (G _ _ _ _ E1). destruct (negb (k_ns pk =? c_nr c1)); inversion E; subst; cbn [c_q]; assumption.
+  - destruct (ack_through (e_f S) (e_ch S) (k_nr pk) now fj) as [[c1 o1] e1] eqn:E1.
+    pose proof (G _ _ _ _ E1). inversion E; subst. assumption.
 Qed.
 
 (* ================= the advertised window ================= *)
 Record win_ok (W : Z) (e : endpoint) : Prop := {
   wo_ok : ep_ok e; wo_wmax : e_wmax e = W; wo_pw : c_pw (e_ch e) = W }.
 
-Lemma submit_win W e body sid now : win_ok W e -> win_ok W (fst (ep_submit e body sid now)).
+Lemma submit_win W e body sid now fj : win_ok W e -> win_ok W (fst (ep_submit e body sid now fj)).
 Proof.
   intros [O M P]. constructor; [apply submit_ok; exact O| |]; unfold ep_submit;
-    destruct (send_session (e_f e) (e_ch e) body sid now) as [c' o] eqn:E; cbn [fst]; ep_simpl; auto.
+    destruct (send_session (e_f e) (e_ch e) body sid now fj) as [[c' o] er] eqn:E; cbn [fst]; ep_simpl; auto.
   apply send_session_spec in E. destruct E as (_ & _ & Pw & _). congruence.
 Qed.
 
-Lemma deliver_win z W e p now : win_ok W e -> win_ok W (fst (ep_deliver z e p now)).
+Lemma deliver_win z W e p now fj : win_ok W e -> win_ok W (fst (ep_deliver z e p now fj)).
 Proof.
   intros [O M P]. constructor; [apply deliver_ok; exact O| |]; unfold ep_deliver;
-    destruct (dispatch z (e_f e) (e_ch e) p now) as [[c' o] h] eqn:E; cbn [fst]; ep_simpl; auto.
+    destruct (dispatch z (e_f e) (e_ch e) p now fj) as [[[c' o] er] h] eqn:E; cbn [fst]; ep_simpl; auto.
   unfold dispatch in E. destruct (k_body p); [|destruct z].
   - apply recv_spec in E. destruct E as (_ & _ & _ & Pw & _). congruence.
-  - destruct (recv (e_f e) (e_ch e) (k_ns p) (k_nr p) now) as [[c1 o1] h1] eqn:E1.
+  - destruct (recv (e_f e) (e_ch e) (k_ns p) (k_nr p) now fj) as [[[c1 o1] e1] h1] eqn:E1.
     inversion E; subst. apply recv_spec in E1. destruct E1 as (_ & _ & _ & Pw & _). congruence.
-  - destruct (ack_through (e_f e) (e_ch e) (k_nr p) now) as [c1 o1] eqn:E1.
+  - destruct (ack_through (e_f e) (e_ch e) (k_nr p) now fj) as [[c1 o1] e1] eqn:E1.
     inversion E; subst. apply ack_through_spec in E1. destruct E1 as (_ & _ & Pw & _). congruence.
 Qed.
 
-Lemma tick_win W e now : win_ok W e -> win_ok W (fst (ep_tick e now)).
+Lemma tick_win W e now drops : win_ok W e -> win_ok W (fst (ep_tick e now drops)).
 Proof.
   intros [O M P]. constructor; [apply tick_ok; exact O| |]; unfold ep_tick;
     destruct (tick (e_f e) (e_ch e) now) as [[[c' o] d] ret] eqn:E; cbn [fst]; ep_simpl; auto.
@@ -1308,9 +1349,9 @@ Lemma node_step_win W n ev : win_ok W (n_ep n) -> win_ok W (n_ep (node_step n ev
 Proof.
   intros H. destruct ev as [m now|now]; cbn [node_step n_ep]; [|apply tick_win; exact H].
   unfold node_dispatch. destruct (n_known n && m_tid_ok m); [|exact H].
-  pose proof (deliver_win false W _ (m_pkt m) now H) as D.
-  destruct (ep_deliver false (n_ep n) (m_pkt m) now) as [e1 ob]. cbn [fst] in D.
-  destruct ob as [| |h o| |]; cbn [n_ep]; auto. destruct h; cbn [n_ep]; auto using submits_win.
+  pose proof (deliver_win false W _ (m_pkt m) now None H) as D.
+  destruct (ep_deliver false (n_ep n) (m_pkt m) now None) as [e1 ob]. cbn [fst] in D.
+  destruct ob as [| |h o er| |]; cbn [n_ep]; auto. destruct h; cbn [n_ep]; auto using submits_win.
 Qed.
 
 Lemma node_run_win W : forall evs n, win_ok W (n_ep n) -> win_ok W (n_ep (node_run n evs)).
@@ -1356,3 +1397,274 @@ Lemma window_reached :
   count_inflight (c_q (e_ch (n_ep n))) = 2 /\ length (c_q (e_ch (n_ep n))) = 4%nat /\
   c_pw (e_ch (n_ep n)) = 2.
 Proof. vm_compute. splits; reflexivity. Qed.
+
+(* ================= no accepted message is ever stranded (every send-fault pattern) ================= *)
+Definition all_unsent (q : list pending) : bool := forallb (fun p => negb (0 <? p_att p)) q.
+Fixpoint flight_sorted (q : list pending) : bool :=
+  match q with
+  | [] => true
+  | p :: r => if 0 <? p_att p then flight_sorted r else all_unsent r
+  end.
+Definition head_live (q : list pending) : Prop :=
+  match q with [] => True | p :: _ => 1 <= p_att p end.
+
+(* the in-flight messages are a prefix of the queue, a non-empty queue has its head in flight (so Tick's
+   retransmit/dead machinery is working on it), and the windows are at least 1 *)
+Record live (c : chan) : Prop := {
+  lv_sorted : flight_sorted (c_q c) = true;
+  lv_head : head_live (c_q c);
+  lv_cwnd : 1 <= c_cwnd c;
+  lv_pw : 1 <= c_pw c }.
+
+Lemma all_unsent_sorted q : all_unsent q = true -> flight_sorted q = true.
+Proof.
+  induction q as [|p r IH]; simpl; intros H; [reflexivity|].
+  apply andb_true_iff in H as [H1 H2]. destruct (0 <? p_att p); [discriminate|exact H2].
+Qed.
+
+Lemma all_unsent_count q : all_unsent q = true -> count_inflight q = 0.
+Proof.
+  induction q as [|p r IH]; simpl; intros H; [reflexivity|].
+  apply andb_true_iff in H as [H1 H2]. rewrite (IH H2). destruct (0 <? p_att p); [discriminate|reflexivity].
+Qed.
+
+Lemma sorted_suffix l1 : forall l2, flight_sorted (l1 ++ l2) = true -> flight_sorted l2 = true.
+Proof.
+  induction l1 as [|p r IH]; intros l2 H; simpl in *; [exact H|].
+  destruct (0 <? p_att p); [auto|]. unfold all_unsent in H. rewrite forallb_app in H.
+  apply andb_true_iff in H as [_ H]. apply all_unsent_sorted; exact H.
+Qed.
+
+Lemma sorted_snoc q m : flight_sorted q = true -> p_att m = 0 -> flight_sorted (q ++ [m]) = true.
+Proof.
+  intros H Hm. induction q as [|p r IH]; simpl in *; [rewrite Hm; reflexivity|].
+  destruct (0 <? p_att p); [auto|]. unfold all_unsent in *. rewrite forallb_app, H. simpl. rewrite Hm. reflexivity.
+Qed.
+
+Lemma drive_q_sorted cwnd nr dl : forall q infl fj,
+  flight_sorted q = true -> flight_sorted (fst (fst (drive_q cwnd nr dl infl fj q))) = true.
+Proof.
+  induction q as [|p r IH]; intros infl fj H; simpl in *; [reflexivity|].
+  destruct (0 <? p_att p) eqn:Ea.
+  - specialize (IH infl fj H). destruct (drive_q cwnd nr dl infl fj r) as [[r' o] e]. simpl in *. rewrite Ea. exact IH.
+  - destruct (cwnd <=? infl); [simpl; rewrite Ea; exact H|].
+    pose proof (all_unsent_sorted _ H) as Hs.
+    destruct fj as [[|k]|].
+    + simpl. exact Hs.
+    + specialize (IH (infl + 1) (Some k) Hs).
+      destruct (drive_q cwnd nr dl (infl + 1) (Some k) r) as [[r' o] e]. simpl in *. exact IH.
+    + specialize (IH (infl + 1) None Hs).
+      destruct (drive_q cwnd nr dl (infl + 1) None r) as [[r' o] e]. simpl in *. exact IH.
+Qed.
+
+(* whatever the write faults: after driveSend the head of a non-empty queue is in flight *)
+Lemma drive_q_head cwnd nr dl q fj :
+  flight_sorted q = true -> 1 <= cwnd ->
+  head_live (fst (fst (drive_q cwnd nr dl (count_inflight q) fj q))).
+Proof.
+  intros H Hc. destruct q as [|p r]; [exact I|]. cbn [drive_q].
+  destruct (0 <? p_att p) eqn:Ea.
+  - destruct (drive_q cwnd nr dl (count_inflight (p :: r)) fj r) as [[r' o] e]. simpl. lia.
+  - simpl in H. rewrite Ea in H. cbn [count_inflight]. rewrite Ea, (all_unsent_count _ H).
+    assert (cwnd <=? 0 + 0 = false) as -> by lia.
+    destruct fj as [[|k]|]; [simpl; lia| |].
+    + destruct (drive_q cwnd nr dl (0 + 0 + 1) (Some k) r) as [[r' o] e]. simpl. lia.
+    + destruct (drive_q cwnd nr dl (0 + 0 + 1) None r) as [[r' o] e]. simpl. lia.
+Qed.
+
+Lemma drive_send_live f c now fj :
+  flight_sorted (c_q c) = true -> 1 <= c_cwnd c -> 1 <= c_pw c -> live (fst (fst (drive_send f c now fj))).
+Proof.
+  intros Hs Hc Hp. unfold drive_send.
+  pose proof (drive_q_sorted (c_cwnd c) (c_nr c) (now + f_rto_init f) (c_q c) (count_inflight (c_q c)) fj Hs) as S1.
+  pose proof (drive_q_head (c_cwnd c) (c_nr c) (now + f_rto_init f) (c_q c) fj Hs Hc) as H1.
+  destruct (drive_q (c_cwnd c) (c_nr c) (now + f_rto_init f) (count_inflight (c_q c)) fj (c_q c)) as [[q' o] e].
+  simpl in *. constructor; simpl; auto.
+Qed.
+
+Lemma ack_q_cwnd_ge ack ssth pw : forall q cwnd, 1 <= cwnd -> 1 <= pw ->
+  1 <= snd (fst (ack_q ack cwnd ssth pw q)).
+Proof.
+  induction q as [|p r IH]; intros cwnd Hc Hp; simpl; [lia|].
+  destruct (p_att p =? 0); [simpl; lia|]. destruct (seq_less (p_ns p) ack); [|simpl; lia].
+  assert (G : 1 <= grow_cwnd cwnd ssth pw).
+  { unfold grow_cwnd. destruct (cwnd <? ssth); destruct (pw <? cwnd + 1) eqn:E; lia. }
+  specialize (IH _ G Hp). destruct (ack_q ack (grow_cwnd cwnd ssth pw) ssth pw r) as [[q1 cw] pr]. simpl in *. exact IH.
+Qed.
+
+Lemma ack_through_live f c ack now fj : live c -> live (fst (fst (ack_through f c ack now fj))).
+Proof.
+  intros [Hs Hh Hc Hp]. unfold ack_through.
+  pose proof (ack_q_cwnd_ge ack (c_ssth c) (c_pw c) (c_q c) (c_cwnd c) Hc Hp) as Hcw.
+  destruct (ack_q ack (c_cwnd c) (c_ssth c) (c_pw c) (c_q c)) as [[q1 cw] pr] eqn:E.
+  destruct (ack_q_spec _ _ _ _ _ _ _ _ E) as (pp & Hq & _ & Hf & _). simpl in Hcw.
+  destruct pr.
+  - apply drive_send_live; cbn [c_q c_cwnd c_pw]; auto. rewrite Hq in Hs. eapply sorted_suffix; exact Hs.
+  - destruct (Hf eq_refl) as [-> ->]. simpl in Hq. subst q1. simpl. constructor; simpl; auto.
+Qed.
+
+Lemma recv_live f c ns nr now fj : live c -> live (fst (fst (fst (recv f c ns nr now fj)))).
+Proof.
+  intros H. unfold recv. pose proof (ack_through_live f c nr now fj H) as [A B C D].
+  destruct (ack_through f c nr now fj) as [[c1 o] e]. simpl in *.
+  destruct (negb (ns =? c_nr c1)); simpl; constructor; simpl; auto.
+Qed.
+
+Lemma dispatch_live z f c p now fj : live c -> live (fst (fst (fst (dispatch z f c p now fj)))).
+Proof.
+  intros H. unfold dispatch. destruct (k_body p); [apply recv_live; exact H|]. destruct z.
+  - pose proof (recv_live f c (k_ns p) (k_nr p) now fj H).
+    destruct (recv f c (k_ns p) (k_nr p) now fj) as [[[c' o] e] h]. exact H0.
+  - pose proof (ack_through_live f c (k_nr p) now fj H).
+    destruct (ack_through f c (k_nr p) now fj) as [[c' o] e]. exact H0.
+Qed.
+
+Lemma send_session_live f c body sid now fj : live c -> live (fst (fst (send_session f c body sid now fj))).
+Proof.
+  intros [Hs Hh Hc Hp]. unfold send_session. apply drive_send_live; cbn [c_q c_cwnd c_pw]; auto.
+  apply sorted_snoc; auto.
+Qed.
+
+(* Tick never changes which entries are in flight *)
+Lemma tick_q_flags f now nr : forall q cwnd ssth q' cw ss o,
+  tick_q f now nr cwnd ssth q = (Some q', cw, ss, o) ->
+  Forall2 (fun p p' => (0 <? p_att p') = (0 <? p_att p) /\ p_att p <= p_att p') q q' /\ (1 <= cwnd -> 1 <= cw).
+Proof.
+  induction q as [|p r IH]; intros cwnd ssth q' cw ss o H; simpl in H.
+  - inversion H; subst. split; [constructor|auto].
+  - destruct ((p_att p =? 0) || (now <? p_dl p)) eqn:Es.
+    + destruct (tick_q f now nr cwnd ssth r) as [[[r' cw1] ss1] o1] eqn:E.
+      destruct r' as [r'|]; simpl in H; [|discriminate]. inversion H; subst.
+      destruct (IH _ _ _ _ _ _ E) as [F C]. split; [constructor; [split; [reflexivity|lia]|exact F]|exact C].
+    + destruct (f_maxr f <? p_att p + 1); [discriminate|].
+      match type of H with context [tick_q f now nr 1 ?s r] =>
+        destruct (tick_q f now nr 1 s r) as [[[r' cw1] ss1] o1] eqn:E end.
+      destruct r' as [r'|]; simpl in H; [|discriminate]. inversion H; subst.
+      destruct (IH _ _ _ _ _ _ E) as [F C]. apply orb_false_iff in Es as [E0 _].
+      split; [constructor; [|exact F]|intros _; apply C; lia].
+      cbn [p_att]. split; [|lia].
+      destruct (0 <? p_att p + 1) eqn:E1; destruct (0 <? p_att p) eqn:E2; lia.
+Qed.
+
+Lemma flags_sorted q q' :
+  Forall2 (fun p p' => (0 <? p_att p') = (0 <? p_att p) /\ p_att p <= p_att p') q q' ->
+  flight_sorted q' = flight_sorted q /\ all_unsent q' = all_unsent q /\ (head_live q -> head_live q').
+Proof.
+  induction 1 as [|p p' r r' [Hf Hle] _ IH]; [auto|].
+  destruct IH as (I1 & I2 & _). simpl. rewrite Hf, I1, I2. splits; auto. simpl. lia.
+Qed.
+
+Lemma tick_q_dead_cwnd f now nr : forall q cwnd ssth cw ss o,
+  tick_q f now nr cwnd ssth q = (None, cw, ss, o) -> 1 <= cwnd -> 1 <= cw.
+Proof.
+  induction q as [|p r IH]; intros cwnd ssth cw ss o H Hc; simpl in H; [discriminate|].
+  destruct ((p_att p =? 0) || (now <? p_dl p)).
+  - destruct (tick_q f now nr cwnd ssth r) as [[[r' cw1] ss1] o1] eqn:E.
+    destruct r'; simpl in H; [discriminate|]. inversion H; subst. eapply IH; eauto.
+  - destruct (f_maxr f <? p_att p + 1); [inversion H; subst; exact Hc|].
+    match type of H with context [tick_q f now nr 1 ?s r] =>
+      destruct (tick_q f now nr 1 s r) as [[[r' cw1] ss1] o1] eqn:E end.
+    destruct r'; simpl in H; [discriminate|]. inversion H; subst. eapply (IH 1); eauto. lia.
+Qed.
+
+Lemma tick_live f c now : live c -> live (fst (fst (fst (tick f c now)))).
+Proof.
+  intros [Hs Hh Hc Hp]. unfold tick.
+  destruct (tick_q f now (c_nr c) (c_cwnd c) (c_ssth c) (c_q c)) as [[[oq cw] ss] o] eqn:E.
+  destruct oq as [q'|]; simpl.
+  - destruct (tick_q_flags _ _ _ _ _ _ _ _ _ _ E) as [F C].
+    destruct (flags_sorted _ _ F) as (S1 & _ & H1). constructor; simpl; auto. congruence.
+  - constructor; simpl; auto. eapply tick_q_dead_cwnd; eauto.
+Qed.
+
+Lemma set_peer_window_live c w : live c -> live (set_peer_window c w).
+Proof.
+  intros [Hs Hh Hc Hp]. unfold set_peer_window. constructor; cbn [c_q c_cwnd c_pw]; auto.
+  - destruct (w <? 1) eqn:E0; destruct (_ <? c_cwnd c) eqn:E; lia.
+  - destruct (w <? 1) eqn:E; lia.
+Qed.
+
+Definition sys_live (s : sys) : Prop := live (e_ch (s_a s)) /\ live (e_ch (s_b s)).
+
+Lemma step_live z s ev : sys_live s -> sys_live (fst (step z s ev)).
+Proof.
+  intros [A B].
+  assert (G : forall x e, live (e_ch e) -> sys_live (set_ep s x e)).
+  { intros x e H. destruct x; split; simpl; auto. }
+  assert (Hx : forall x, live (e_ch (ep s x))) by (intros []; assumption).
+  destruct ev as [x body sid now fj|x idx now fj|x p now fj|x now drops|x w]; unfold step.
+  - unfold ep_submit. pose proof (send_session_live (e_f (ep s x)) _ body sid now fj (Hx x)).
+    destruct (send_session (e_f (ep s x)) (e_ch (ep s x)) body sid now fj) as [[c' o] er]. simpl in *. auto.
+  - destruct (nth_error _ idx) as [p|]; [|split; assumption].
+    unfold ep_deliver. pose proof (dispatch_live z (e_f (ep s x)) _ p now fj (Hx x)).
+    destruct (dispatch z (e_f (ep s x)) (e_ch (ep s x)) p now fj) as [[[c' o] er] h]. simpl in *. auto.
+  - unfold ep_deliver. pose proof (dispatch_live z (e_f (ep s x)) _ p now fj (Hx x)).
+    destruct (dispatch z (e_f (ep s x)) (e_ch (ep s x)) p now fj) as [[[c' o] er] h]. simpl in *. auto.
+  - unfold ep_tick. pose proof (tick_live (e_f (ep s x)) _ now (Hx x)).
+    destruct (tick (e_f (ep s x)) (e_ch (ep s x)) now) as [[[c' o] d] ret]. simpl in *. auto.
+  - simpl. apply G. simpl. apply set_peer_window_live. apply Hx.
+Qed.
+
+(* For BOTH dispatch rules, EVERY execution (incl. forged packets) and EVERY pattern of send-callback
+   failures (first transmission from Send or from the ACK path, retransmissions, ZLBs): a non-empty queue
+   always has its head in flight (attempts >= 1), the in-flight messages are a prefix of the queue, and
+   cwnd >= 1.  Hence no accepted message can sit in the queue out of Tick's reach: the head is retransmitted
+   and, unacknowledged, leads to the dead callback (C16_dead_after_max, whose Ticks ignore write errors). *)
+Lemma run_live z : forall evs s, sys_live s -> sys_live (run z s evs).
+Proof. induction evs as [|ev r IH]; intros s H; simpl; auto using step_live. Qed.
+
+Lemma init_live ai am ar az aw bi bm br bz bw oa ob :
+  1 <= dflt aw 4 -> 1 <= dflt bw 4 ->
+  sys_live (init_sys (ai, am, ar, az, aw) (bi, bm, br, bz, bw) oa ob).
+Proof.
+  intros. unfold init_sys, new_endpoint, new_chan, with_origin.
+  split; constructor; cbn [s_a s_b e_ch c_q c_cwnd c_pw flight_sorted head_live]; auto; lia.
+Qed.
+
+Lemma no_stranded_message z ai am ar az aw bi bm br bz bw oa ob evs :
+  1 <= dflt aw 4 -> 1 <= dflt bw 4 ->
+  let s := run z (init_sys (ai, am, ar, az, aw) (bi, bm, br, bz, bw) oa ob) evs in
+  forall x, head_live (c_q (e_ch (ep s x))) /\ flight_sorted (c_q (e_ch (ep s x))) = true /\
+            1 <= c_cwnd (e_ch (ep s x)).
+Proof.
+  intros Ha Hb s x.
+  assert (K : sys_live s) by (apply run_live, init_live; assumption).
+  destruct K as [[A1 A2 A3 A4] [B1 B2 B3 B4]]. destruct x; simpl; auto.
+Qed.
+
+(* ---- the runner's timer never parks and reaches every armed ZLB deadline ---- *)
+Lemma runner_next_bounds ret now :
+  now < runner_next ret now /\
+  match ret with
+  | None => runner_next ret now = now + 500
+  | Some t => runner_next ret now = Z.max t (now + 50)
+  end.
+Proof. unfold runner_next. destruct ret as [t|]; [destruct (t - now <? 50) eqn:E|]; lia. Qed.
+
+(* a Tick before the ZLB deadline keeps the timer armed and tells the runner to come back no later than it *)
+Lemma tick_before_zlb f c now d c' o ret :
+  c_zlb c = Some d -> now < d -> tick f c now = (c', o, false, ret) ->
+  c_zlb c' = Some d /\ c_nr c' = c_nr c /\ exists r, ret = Some r /\ r <= d.
+Proof.
+  intros Hz Hlt H. unfold tick in H.
+  destruct (tick_q f now (c_nr c) (c_cwnd c) (c_ssth c) (c_q c)) as [[[oq cw] ss] o1].
+  destruct oq as [q'|]; [|inversion H].
+  rewrite Hz in H. assert (negb (now <? d) = false) as Hf by lia. rewrite Hf in H.
+  inversion H; subst; clear H. cbn [c_zlb c_nr]. splits; auto.
+  unfold earliest. destruct (next_rto q' None) as [x|].
+  - destruct (d <? x) eqn:E; eexists; (split; [reflexivity|lia]).
+  - eexists; split; [reflexivity|lia].
+Qed.
+
+(* so: with the ZLB armed for d at a Tick at t1 < d that does not declare dead, the timer stays armed for d
+   and the runner's next Tick is at t2 with t1 + 50 <= t2 <= max d (t1+50): the Ticks advance by at least
+   50 ms and never jump past d by more than 50 ms, so one of them is at or after d within d + 50 and sends the
+   acknowledgement (C16_tick_sends_owed_ack) unless a message sent in between already carried it *)
+Lemma runner_reaches_zlb f c t1 d c' o ret :
+  c_zlb c = Some d -> t1 < d -> tick f c t1 = (c', o, false, ret) ->
+  let t2 := runner_next ret t1 in
+  t1 + 50 <= t2 <= Z.max d (t1 + 50) /\ c_zlb c' = Some d.
+Proof.
+  intros Hz Hlt H. destruct (tick_before_zlb _ _ _ _ _ _ _ Hz Hlt H) as (Z1 & _ & r & -> & Hr).
+  cbv zeta. destruct (runner_next_bounds (Some r) t1) as [_ E]. rewrite E. split; [lia|exact Z1].
+Qed.
